@@ -6,9 +6,13 @@ require github.com/FollowTheProcess/spok v0.0.0
 
 require (
 	github.com/FollowTheProcess/collections v0.10.0 // indirect
+	github.com/FollowTheProcess/msg v1.2.0 // indirect
 	github.com/bmatcuk/doublestar/v4 v4.7.1 // indirect
 	github.com/fatih/color v1.18.0 // indirect
+	github.com/joho/godotenv v1.5.1 // indirect
+	github.com/juju/ansiterm v1.0.0 // indirect
 	github.com/lithammer/fuzzysearch v1.1.8 // indirect
+	github.com/lunixbochs/vtclean v1.0.0 // indirect
 	github.com/mattn/go-colorable v0.1.13 // indirect
 	github.com/mattn/go-isatty v0.0.20 // indirect
 	github.com/muesli/cancelreader v0.2.2 // indirect
